@@ -8,6 +8,7 @@ _Observable and do not have a ``_type`` attribute.
 from collections import OrderedDict
 import itertools
 
+from .. import registry
 from ..custom import _custom_observable_builder
 from ..exceptions import AtLeastOnePropertyError, DependentPropertiesError
 from ..properties import (
@@ -898,5 +899,12 @@ def CustomObservable(type='x-custom-observable', properties=None, id_contrib_pro
             extension = extension.replace('-', '')
             NameExtension.__name__ = 'ExtensionDefinition' + extension
             cls.with_extension = extension_name
-        return _custom_observable_builder(cls, type, _properties, '2.1', _Observable, id_contrib_props)
+        try:
+            return _custom_observable_builder(cls, type, _properties, '2.1', _Observable, id_contrib_props)
+        except Exception:
+            if extension_name:
+                # don't leave the helper extension behind if the observable
+                # itself could not be registered
+                registry.STIX2_OBJ_MAPS['2.1']['extensions'].pop(extension_name, None)
+            raise
     return wrapper
